@@ -21,7 +21,15 @@ CONSTANTS Files,      \* object ids, e.g. {1,2,3}
           Kind,       \* "os" | "mem": visibility rules of the destination
           Mode,       \* "all" | "seq"
           MaxKills,   \* 0 or 1: process kill (only meaningful for Kind = "os")
+          ErrKinds,   \* identities a failure may have (plain, wrapping fs.ErrNotExist / ErrExist / ErrPermission,
+                      \* io.EOF, io.ErrUnexpectedEOF, context.Canceled, DeadlineExceeded, fs.ErrClosed)
           Emit
+
+\* The model abstracts from the identity of a failure: PutFail / WriteFail / CloseFail / RenameFail stand for a
+\* failure of *any* identity in ErrKinds, and every law below holds for each of them alike - in particular
+\* FaultReported: no identity (such as "does not exist" or "end of file") makes a failure of the destination
+\* something an operation may swallow.  Each emitted plan is replayed once per identity.
+ASSUME ErrKinds # {}
 
 VARIABLES pc,       \* pc[f] \in {"init","open","closing","done","skipped"}
           written,  \* written[f]: chunks accepted so far
@@ -169,6 +177,6 @@ Terminates == <>(ret # "running")
 Terminal == ret # "running"
 Outcome == [mode |-> Mode, kind |-> Kind, atomic |-> Atomic, nchunks |-> NChunks,
             init |-> init0, plan |-> faults, ret |-> ret, jobErr |-> jobErr, dest |-> dest,
-            tmp |-> tmp, count |-> count, started |-> [f \in Files |-> pc[f] # "init"]]
+            tmp |-> tmp, count |-> count, started |-> [f \in Files |-> pc[f] # "init"], errKinds |-> ErrKinds]
 EmitCase == (Emit /\ Terminal) => PrintT(<<"CASE", ToJson(Outcome)>>)
 =============================================================================
